@@ -3,8 +3,10 @@ package checks
 import (
 	"crypto/rand"
 	"encoding/binary"
+	"encoding/json"
 	"fmt"
 	"os"
+	"os/exec"
 	"path/filepath"
 	"sort"
 	"strconv"
@@ -392,6 +394,19 @@ func c01Run(c *core.Ctx) {
 	// recipes (a coin or a position whose alternative no raw word selects).
 	tape.Reset()
 	tape.Install(nil)
+	// ... and a word out of a list too long for 16-bit index arithmetic
+	hugeN := []int{70000}
+	if c.Thorough() {
+		hugeN = []int{65537, 70000, 100003}
+	}
+	for _, n := range hugeN {
+		if c.Mine() {
+			c04Huge(c, n, 2)
+		}
+		if c.Mine() {
+			c04Huge(c, n, 3)
+		}
+	}
 	for _, L := range []int{17, 33, 65, 130} {
 		for _, cp := range []string{"random", "one"} {
 			for _, ws := range [][]string{{"ab"}, {"ab", "cd", "efg"}} {
@@ -622,7 +637,7 @@ func init() {
 		ID:    "C01",
 		Level: "model_checking",
 		Rule: "for each bound n of the tier's list every one of the 2^32 values of the first random word is fed to the real randomUint32n via crypto/rand.Read on a scripted reader (second word: an accepted sentinel); " +
-			"a case is a (n, first word) pair, distinct_nontrivial counts distinct (n, per-outcome count, rejected) triples, one per fully swept bound; runs of up to 100000 rejected words; second layer: boundary word sets and 1/2/3-byte chunked delivery for every n<=2^12 (thorough 2^16) and 2^k±d",
+			"a case is a (n, first word) pair, distinct_nontrivial counts distinct (n, per-outcome count, rejected) triples, one per fully swept bound; runs of up to 100000 rejected words; second layer: boundary word sets and 1/2/3-byte chunked delivery for every n<=2^12 (thorough 2^16) and 2^k±d; add-on: single-deviation coverage of capitalisation choices in long recipes and of every word of a 70000-word list (thorough also 65537, 100003) at each position, with the pigeonhole bound on the announced draws",
 		Assume:      []string{"go1.23.5 crypto/rand.Read = io.ReadFull(rand.Reader, b)", "uniformity is decided only for the bounds listed in coverage.notes; other bounds get the boundary layer (necessary conditions only)"},
 		Run:         c01Run,
 		Prepare:     c01Prepare,
@@ -632,4 +647,69 @@ func init() {
 		TracesKey:   "executions",
 		DistinctKey: "bounds_fully_swept",
 	})
+	// replay: a recorded coverage case is re-explored in this process; a
+	// recorded (n, words) case is shown as a transcript of the real draw, and
+	// the verdict is taken from a fresh full run of the check restricted to
+	// that bound (all 2^32 first words, all layers) in a scratch root.
+	var cached *struct {
+		desc string
+		bad  bool
+	}
+	Replayers["C01"] = func(raw json.RawMessage) (string, bool) {
+		var rp struct {
+			Case  *WLCase  `json:"case"`
+			N     uint32   `json:"n"`
+			Words []uint32 `json:"words"`
+			Chunk int      `json:"chunk"`
+		}
+		json.Unmarshal(raw, &rp)
+		if rp.Case != nil {
+			c := &core.Ctx{ID: "C01", Tier: "quick", NShards: 1}
+			tape.Reset()
+			tape.Install(nil)
+			for r := uint32(0); r < uint32(len(rp.Case.Words)) && len(rp.Case.Words) > 300; r++ {
+				cal.Rep(uint32(len(rp.Case.Words)), r)
+			}
+			c04Coverage(c, *rp.Case)
+			msg := ""
+			if len(c.R.Violations) > 0 {
+				msg = c.R.Violations[0].Msg
+			}
+			return fmt.Sprintf("coverage case Length %d, %d words: %d violation(s) %s", rp.Case.Length, len(rp.Case.Words), c.R.NViol, msg), c.R.NViol > 0
+		}
+		if cached != nil {
+			return cached.desc, cached.bad
+		}
+		desc := ""
+		if len(rp.Words) > 0 {
+			spg.VerifDrawHook = nil
+			res, used, ok := drawLong(rp.N, append(append([]uint32{}, rp.Words...), rp.Words[len(rp.Words)-1], rp.Words[len(rp.Words)-1]), rp.Chunk)
+			desc = fmt.Sprintf("draw with bound %d on words %#x (chunk %d): result %d, %d words consumed, completed=%v; ", rp.N, rp.Words, rp.Chunk, res, used, ok)
+		}
+		tmp, err := os.MkdirTemp("", "verif-c01-replay-")
+		if err != nil {
+			return err.Error(), false
+		}
+		defer os.RemoveAll(tmp)
+		exe, _ := os.Executable()
+		cmd := exec.Command(exe, "C01", "--tier", "quick")
+		cmd.Env = append(os.Environ(), "VERIF_ROOT="+tmp, "VERIF_C01_BOUNDS="+strconv.FormatUint(uint64(rp.N), 10), "VERIF_IN_REPLAY=1")
+		out, _ := cmd.CombinedOutput()
+		nv := strings.Count(string(out), "VIOLATION property=C01")
+		first := ""
+		if b, err := os.ReadFile(filepath.Join(tmp, "replays", "C01", "quick-1.json")); err == nil {
+			var f struct {
+				Key string `json:"key"`
+				Msg string `json:"msg"`
+			}
+			json.Unmarshal(b, &f)
+			first = f.Key + ": " + f.Msg
+		}
+		desc += fmt.Sprintf("full sweep of bound %d re-run: %d violation(s) %s", rp.N, nv, first)
+		cached = &struct {
+			desc string
+			bad  bool
+		}{desc, nv > 0}
+		return desc, nv > 0
+	}
 }
